@@ -11,8 +11,8 @@ import (
 func init() {
 	register(&Property{
 		Meta: PropMeta{
-			ID:    "C16",
-			Level: "other",
+			ID:          "C16",
+			Level:       "other",
 			Explanation: "Structural necessary conditions of 'help and man page show exactly the visible interface', decided on the SSA of /repo for all paths: (PRED) the visibility predicates have their documented shape — Option.showInHelp can be true only when ¬Hidden and needs a short or a long name, Group.showInHelp only when ¬Hidden and some option shows, visibleCommands keeps exactly the commands with ¬Hidden; (ROW) a help option row is written exactly under ¬group.Hidden ∧ (¬builtin-help ∨ top-level) ∧ option.showInHelp() — required and no further guard (control-dependence closure) — and inside writeHelpOption the row requires ¬Hidden, the short part ShortName ≠ 0, the long part a long name, `=`/value name/choices canArgument(), the description block a description; help argument rows require a description; a man option entry requires group.showInHelp() ∧ option.showInHelp() and nothing else; (COMMANDS) every command list that is printed (help usage line and `Available commands`, man subcommands) ranges over sortedVisibleCommands, the usage line's count comes from visibleCommands, and Command.commands is read in help.go/man.go only to take its length; (ATTR) each attribute the statement lists reaches the writer in the row/entry functions; (MASK) wherever Option.Default, the default literal or a rendered value can reach a writer in help or man generation, the path requires an empty DefaultMask, and a mask of \"-\" prints nothing; (DEEPEST) WriteHelp walks to the deepest active command (a loop over .Active that ends only at nil) for the long description and the command list.",
 			NotDecided:  "the text layout (C17); that every combination of marks prints correctly; nested-group semantics of `hidden`; parity of man and help attributes beyond the listed ones (the formats legitimately differ).",
 			Trusted:     []string{"go/ssa lowering", "go/types", "post-dominator based control dependence"},
@@ -224,7 +224,9 @@ func runC16(c *Ctx, r *Report, tier string) {
 			if !ok || c.calleeName(call.Common()) != "append" || relType(c, call.Type()) != "[]*Arg" {
 				continue
 			}
-			_, req := c.Requires(wh, isInstr(in), func(l Lit) bool { return l.Pos && strings.HasPrefix(l.Term, "nonempty(Arg.Description(idx(Command.args(") }, nil)
+			_, req := c.Requires(wh, isInstr(in), func(l Lit) bool {
+				return l.Pos && strings.HasPrefix(l.Term, "nonempty(Arg.Description(idx(Command.args(")
+			}, nil)
 			r.Check(req, "ROW", c.fname(wh), "argument rows are the described arguments", c.ipos(in), "append REQ(arg.Description != \"\")", "an argument is listed without a description test")
 		}
 	}
